@@ -62,6 +62,7 @@ def build_inputs(ctx, res):
     inputs = []
     files = G.QUICK_FILES if ctx.quick else G.THOROUGH_FILES + G.BIG_FILES[:3]
     templates = []
+    contact_templates = []
     for name in files:
         try:
             models = G.models_of(name)
@@ -81,9 +82,21 @@ def build_inputs(ctx, res):
                 inputs.append(("corpus-nomodel:%s" % name, rs, None))
                 try:
                     from rnapolis.annotator import find_pairs
-                    templates += G.template_pairs(s, find_pairs(s, m)[0])[:30]
+                    fp = find_pairs(s, m)
+                    templates += G.template_pairs(s, fp[0])[:30]
+                    contact_templates += G.template_pairs(s, (fp[1] + fp[2]))[:30]
                 except Exception:  # noqa: BLE001
                     pass
+                # one residue listed in two places (backbone records, the following residue, then the base records):
+                # two entries share every identifier, and no contact may join them
+                from gen import g3
+                for _ in range(2):
+                    try:
+                        sp = g3.split_residue(g3.window(g3.mk_structure(list(rs)), rng, 30), rng, base_together=True)
+                    except Exception:  # noqa: BLE001
+                        sp = None
+                    if sp is not None:
+                        inputs.append(("split-residue:%s" % name, list(sp.residues), m))
                 R = G.random_rotation(rng)
                 inputs.append(("rigid:%s" % name, G.moved(rs, R, [rng.uniform(-300, 300) for _ in range(3)]), m))
                 if small or not ctx.quick:
@@ -107,7 +120,60 @@ def build_inputs(ctx, res):
                 inputs.append(("multimodel:%s" % name, parts, "multi"))
     for tag, rs in G.placements(rng, templates, ctx.pick(200, 10000)):
         inputs.append(("place:" + tag.split(":")[0].rstrip("+-.0123456789e"), rs, None))
+    # base donor ... phosphate / ribose oxygen contacts of the corpus with the oxygen moved to 4.0 A +- delta from the
+    # nearest donor atom (the acceptor residue is cut down to that oxygen and its phosphorus, so the contact stands or
+    # falls with this one distance); half of them a few hundred Angstroms from the origin
+    for tag, rs in contact_placements(rng, contact_templates, ctx.pick(240, 4000)):
+        inputs.append((tag, rs, None))
     return inputs
+
+
+def contact_placements(rng, templates, n):
+    from rnapolis.tertiary import BASE_DONORS, PHOSPHATE_ACCEPTORS, RIBOSE_ACCEPTORS
+    out = []
+    if not templates:
+        return out
+    guard = 0
+    while len(out) < n and guard < 20 * n:
+        guard += 1
+        ri, rj = templates[rng.randrange(len(templates))]
+        donors = [a for a in ri.atoms if a.name in BASE_DONORS.get(ri.one_letter_name, [])]
+        oxygens = [b for b in rj.atoms if b.name in PHOSPHATE_ACCEPTORS + RIBOSE_ACCEPTORS]
+        near = sorted(((float(numpy.linalg.norm(a.coordinates - b.coordinates)), a.name, b.name, a, b) for a in donors for b in oxygens),
+                      key=lambda t: t[:3])
+        near = [t for t in near if t[0] < 4.6]
+        if not near:
+            continue
+        _, _, _, a, b = near[0] if rng.random() < 0.7 else rng.choice(near)
+        delta = rng.choice([2e-5, 1e-4, 1e-3, 1e-2]) * rng.choice([-1, 1])
+        keep = {b.name, "P"}
+        r2 = G.place_distance(ri, G.rebuild(rj, keep=lambda x: x.name in keep), a, b, 4.0 + delta)
+        if r2 is None:
+            continue
+        rs = [ri, r2] if rng.random() < 0.5 else [r2, ri]
+        fam = "place-contact"
+        if rng.random() < 0.5:
+            t = [rng.choice([-1, 1]) * rng.uniform(150, 900) for _ in range(3)]
+            rs = G.moved(rs, G.AXIS_PERMS[0], t)
+            fam += "@far"
+        out.append((fam, rs))
+    return out
+
+
+def merged_by_identity(residues):
+    """entries with equal (label, auth, model) are one residue: their atoms are joined at the first entry's place"""
+    from rnapolis.tertiary import Residue3D
+    first = {}
+    out = []
+    for r in residues:
+        k = (r.label, r.auth, r.model)
+        if k in first:
+            q = out[first[k]]
+            out[first[k]] = Residue3D(q.label, q.auth, q.model, q.one_letter_name, tuple(q.atoms) + tuple(r.atoms))
+        else:
+            first[k] = len(out)
+            out.append(r)
+    return out
 
 
 def rows_of(bi, residues, model):
@@ -252,7 +318,7 @@ def run(ctx):
         if bi is None:
             # find_pairs itself raised: reported by C03; nothing to check here
             continue
-        shown = [r for r in rs if m is None or r.model == m]
+        shown = merged_by_identity([r for r in rs if m is None or r.model == m])
         bp_rows, st_rows, bph, br, missing = rows_of(bi, shown, m)
         n_int = len(bi.basePairs) + len(bi.stackings) + len(bi.basePhosphateInteractions) + len(bi.baseRiboseInteractions)
         res.case((fam, repr(bi)[:400]), nontrivial=n_int > 0)
@@ -407,7 +473,8 @@ def functional_saenger(ctx, res):
     from rnapolis.annotator import detect_saenger
     letters = ["A", "C", "G", "U", "T", "N", "a", "P"]
     cases = []
-    for b1 in letters:
+    for sweep in (0, 1):
+      for b1 in letters:
         for b2 in letters:
             for lw in C.LeontisWesthof:
                 r1 = T.Residue3D(C.ResidueLabel("A", 1, b1), None, 1, b1, ())
